@@ -66,7 +66,7 @@ CHECKS: dict[str, dict] = {
         "rule": (
             "seeded training life-cycles of the real ml.train on real equivariant models (ConvBlock/ResNet/UNet/DilResNet; unsorted signatures with pseudo-types; all bias modes; "
             "norm, activation, pre-activation, torus flag; d in {2,3}) with real optax optimisers (sgd, adam, adamw+decay, large learning rates), 1-3 segments of 1-20 epochs, "
-            "1-2 devices, smse / per-timestep loss; faults: crash at a drawn seam call (clock, optimiser update, get_batches, wandb, checkpoint write), torn checkpoints, "
+            "1-2 devices, smse / per-timestep / normalised loss; faults: crash at a drawn seam call (clock, optimiser update, get_batches, wandb, checkpoint write), torn checkpoints, "
             "crash inside the k-th raw write of a checkpoint, restart with ml.load (short reads) into a fresh twin or from scratch, optimiser/device/batch change across restarts, "
             "wandb stalls and errors, disk full, clock jumps. Invariants after every segment: equivariance for every g in B_d and cyclic shifts along toroidal axes on three probes "
             "(boundary flags travel with their axes; conditioning-aware tolerance + persistence), filter bank = initial x common scalar, non-vacuity. "
